@@ -315,8 +315,13 @@ pub fn tree_write_check(tree: &duke::tree::class::ClassFile, obs: &mut Obs) -> R
 		Ok(out) => Ok(Some(check_written(&expected, &out, obs)?)),
 		Err(e) => {
 			let worst = expected.codes().map(worst_case_size).max().unwrap_or(0);
+			// a table of more than 65535 entries does not fit the count of one attribute: a writer may split it or refuse
+			let table_overflow = expected.codes().any(|c| c.attrs.iter().any(|a| matches!(a, Attr::LineNumberTable(t) if t.len() > 65535)));
 			if worst > 65535 {
 				obs.label("writer_refused_oversized");
+				Ok(None)
+			} else if table_overflow {
+				obs.label("writer_refused_table_beyond_65535_entries");
 				Ok(None)
 			} else {
 				Err(format!("duke::write_class failed on a class that fits a class file (largest method at most {worst} bytes): {e}"))
